@@ -517,3 +517,198 @@ Proof.
   intros s off. unfold col16, colscalar, find_line_col.
   destruct (line_col_prefix s off) as [l pre]. cbn [snd]. apply len16_nlen.
 Qed.
+
+(* ---- line/column round trip, positions inside the document ---- *)
+Lemma blen_app : forall a b, blen (a ++ b) = blen a + blen b.
+Proof. induction a as [|c a IH]; intros b; cbn [app blen]; [reflexivity|]. rewrite IH. lia. Qed.
+
+Lemma blen_firstn_mono : forall s i j, (i <= j)%nat -> blen (firstn i s) <= blen (firstn j s).
+Proof.
+  induction s as [|c r IH]; intros i j Hij; [rewrite !firstn_nil; lia|].
+  destruct i as [|i]; [cbn [firstn blen]; lia|]. destruct j as [|j]; [lia|].
+  cbn [firstn blen]. specialize (IH i j ltac:(lia)). lia.
+Qed.
+
+Lemma blen_firstn_le : forall s k, blen (firstn k s) <= blen s.
+Proof.
+  intros s k. rewrite <- (firstn_skipn k s) at 2. rewrite blen_app. lia.
+Qed.
+
+(* strictly monotone below the length *)
+Lemma blen_firstn_lt : forall s i j, (i < j)%nat -> (j <= length s)%nat -> blen (firstn i s) < blen (firstn j s).
+Proof.
+  induction s as [|c r IH]; intros i j Hij Hj; cbn [length] in Hj; [lia|].
+  destruct j as [|j]; [lia|]. pose proof (w8_pos c). destruct i as [|i].
+  - cbn [firstn blen]. lia.
+  - cbn [firstn blen]. specialize (IH i j ltac:(lia) ltac:(lia)). lia.
+Qed.
+
+(* slicing at a boundary *)
+Lemma prefixb_boundary : forall s k, prefixb (blen (firstn k s)) s = firstn k s.
+Proof.
+  induction s as [|c r IH]; intros k; [rewrite firstn_nil; reflexivity|].
+  destruct k as [|k]; cbn [firstn blen prefixb].
+  - pose proof (w8_pos c). destruct (0 <? w8 c) eqn:E; [reflexivity|apply N.ltb_ge in E; lia].
+  - destruct (w8 c + blen (firstn k r) <? w8 c) eqn:E; [apply N.ltb_lt in E; lia|].
+    replace (w8 c + blen (firstn k r) - w8 c) with (blen (firstn k r)) by lia. rewrite IH. reflexivity.
+Qed.
+
+Lemma skipb_boundary : forall s k, (k <= length s)%nat -> skipb (blen (firstn k s)) s = skipn k s.
+Proof.
+  induction s as [|c r IH]; intros k Hk; [destruct k; reflexivity|].
+  destruct k as [|k]; cbn [firstn blen skipb skipn]; [reflexivity|].
+  pose proof (w8_pos c). destruct (w8 c + blen (firstn k r) =? 0) eqn:E; [apply N.eqb_eq in E; lia|].
+  replace (w8 c + blen (firstn k r) - w8 c) with (blen (firstn k r)) by lia. apply IH. cbn [length] in Hk. lia.
+Qed.
+
+Lemma prefixb_prefixb : forall s m n, m <= n -> prefixb m (prefixb n s) = prefixb m s.
+Proof.
+  induction s as [|c r IH]; intros m n Hmn; [reflexivity|]. cbn [prefixb].
+  destruct (n <? w8 c) eqn:En.
+  - apply N.ltb_lt in En. destruct (m <? w8 c) eqn:Em; [reflexivity|apply N.ltb_ge in Em; lia].
+  - apply N.ltb_ge in En. cbn [prefixb]. destruct (m <? w8 c) eqn:Em; [reflexivity|].
+    apply N.ltb_ge in Em. rewrite IH by lia. reflexivity.
+Qed.
+
+(* every entry of the line table is a character boundary (the end of a prefix of the text) *)
+Lemma line_starts_boundary : forall s o x, In x (line_starts o s) ->
+  exists k, (k <= length s)%nat /\ x = o + blen (firstn k s).
+Proof.
+  induction s as [|c r IH]; intros o x H; cbn [line_starts] in H; [contradiction|].
+  assert (Hr : In x (line_starts (o + w8 c) r) -> exists k, (k <= length (c :: r))%nat /\ x = o + blen (firstn k (c :: r))).
+  { intros H1. apply IH in H1. destruct H1 as (k & Hk & ->). exists (S k). cbn [length firstn blen]. split; lia. }
+  destruct (c =? NL); [|auto]. destruct H as [<-|H]; [|auto].
+  exists 1%nat. cbn [length firstn blen]. split; lia.
+Qed.
+
+Lemma lines_boundary : forall s l, (l < length (lines s))%nat ->
+  exists k, (k <= length s)%nat /\ nth l (lines s) 0 = blen (firstn k s).
+Proof.
+  intros s l Hl. assert (H : In (nth l (lines s) 0) (lines s)) by (apply nth_In; assumption).
+  unfold lines in H at 2. destruct H as [H|H].
+  - exists 0%nat. cbn [firstn blen]. split; [lia|]. symmetry; exact H.
+  - apply line_starts_boundary in H. destruct H as (k & Hk & H). exists k. split; [assumption|]. rewrite H. lia.
+Qed.
+
+Lemma firstn_plus : forall (l : list N) a b, firstn (a + b) l = firstn a l ++ firstn b (skipn a l).
+Proof.
+  induction l as [|x l IH]; intros a b.
+  - rewrite !firstn_nil, skipn_nil, firstn_nil. reflexivity.
+  - destruct a as [|a]; [reflexivity|]. cbn [Nat.add firstn skipn app]. rewrite IH. reflexivity.
+Qed.
+
+Lemma firstn_skipn_blen : forall s kb k, (kb <= k)%nat ->
+  blen (firstn (k - kb) (skipn kb s)) = blen (firstn k s) - blen (firstn kb s).
+Proof.
+  intros s kb k H. replace k with (kb + (k - kb))%nat at 2 by lia.
+  rewrite firstn_plus, blen_app. lia.
+Qed.
+
+(* the text counted by find_line_col, for an offset on a character boundary *)
+Lemma counted_prefix_boundary : forall s k, (k <= length s)%nat ->
+  let off := blen (firstn k s) in
+  exists kb, (kb <= k)%nat /\ line_begin s (find_line s off) = blen (firstn kb s) /\
+             snd (line_col_prefix s off) = firstn (k - kb) (skipn kb s).
+Proof.
+  intros s k Hk off.
+  assert (Hoff : off <= blen s) by apply blen_firstn_le.
+  assert (Hc : clamp_pos s off = off).
+  { unfold clamp_pos. destruct (blen s <? off) eqn:E; [apply N.ltb_lt in E; lia|reflexivity]. }
+  destruct (find_line_correct s off) as (H1 & H2 & H3 & H4). rewrite Hc in *.
+  destruct (lines_boundary s _ H1) as (kb & Hkb & Hb). fold (line_begin s (find_line s off)) in Hb.
+  assert (Hle : (kb <= k)%nat).
+  { destruct (Nat.le_gt_cases kb k) as [?|Hgt]; [assumption|].
+    pose proof (blen_firstn_lt s k kb Hgt Hkb). unfold off in *. lia. }
+  exists kb. repeat split; try assumption.
+  unfold line_col_prefix. rewrite Hc. cbn [snd]. fold off. rewrite Hb.
+  rewrite (skipb_boundary s kb Hkb).
+  rewrite prefixb_prefixb by lia.
+  unfold off. rewrite <- firstn_skipn_blen by assumption. apply prefixb_boundary.
+Qed.
+
+Theorem line_col_roundtrip : forall s off, boundary s off -> offset_of s (find_line_col s off) = off.
+Proof.
+  intros s off (k0 & Hk0).
+  (* normalise the witness below the length *)
+  set (k := Nat.min k0 (length s)).
+  assert (Hk : (k <= length s)%nat) by (unfold k; lia).
+  assert (Hoff : off = blen (firstn k s)).
+  { subst off. unfold k. destruct (Nat.le_gt_cases k0 (length s)) as [?|?].
+    - rewrite Nat.min_l by lia. reflexivity.
+    - rewrite Nat.min_r by lia. rewrite !firstn_all2 by lia. reflexivity. }
+  clear Hk0. subst off.
+  destruct (counted_prefix_boundary s k Hk) as (kb & Hle & Hb & Hp). cbn zeta in *.
+  unfold offset_of, find_line_col.
+  destruct (line_col_prefix s (blen (firstn k s))) as [l pre] eqn:E. cbn [fst snd] in *.
+  assert (Hl : l = find_line s (blen (firstn k s))).
+  { unfold line_col_prefix in E. inversion E.
+    assert (Hc : clamp_pos s (blen (firstn k s)) = blen (firstn k s)).
+    { unfold clamp_pos. pose proof (blen_firstn_le s k).
+      destruct (blen s <? blen (firstn k s)) eqn:E2; [apply N.ltb_lt in E2; lia|reflexivity]. }
+    rewrite Hc. reflexivity. }
+  subst l. rewrite Hb. rewrite (skipb_boundary s kb ltac:(lia)).
+  unfold nlen. rewrite Nnat.Nat2N.id. subst pre.
+  rewrite firstn_length. rewrite skipn_length.
+  replace (Nat.min (k - kb) (length s - kb)) with (k - kb)%nat by lia.
+  rewrite firstn_skipn_blen by assumption.
+  pose proof (blen_firstn_mono s kb k Hle). lia.
+Qed.
+
+Lemma clamp_boundary : forall s off, boundary s off -> clamp_pos s off = off.
+Proof.
+  intros s off (k & ->). unfold clamp_pos. pose proof (blen_firstn_le s k).
+  destruct (blen s <? blen (firstn k s)) eqn:E; [apply N.ltb_lt in E; lia|reflexivity].
+Qed.
+
+Lemma boundary_norm : forall s off, boundary s off -> exists k, (k <= length s)%nat /\ off = blen (firstn k s).
+Proof.
+  intros s off (k0 & ->). exists (Nat.min k0 (length s)). split; [lia|].
+  destruct (Nat.le_gt_cases k0 (length s)) as [?|?].
+  - rewrite Nat.min_l by lia. reflexivity.
+  - rewrite Nat.min_r by lia. rewrite !firstn_all2 by lia. reflexivity.
+Qed.
+
+Lemma fst_find_line_col : forall s off, fst (find_line_col s off) = find_line s off.
+Proof.
+  intros s off. unfold find_line_col, line_col_prefix. cbn [fst].
+  unfold find_line. f_equal. f_equal.
+  unfold clamp_pos. destruct (blen s <? off) eqn:E; [|rewrite E; reflexivity].
+  rewrite N.ltb_irrefl. reflexivity.
+Qed.
+
+Theorem positions_in_document : forall s off, boundary s off -> in_document s (find_line_col s off).
+Proof.
+  intros s off Hb. pose proof (line_col_roundtrip s off Hb) as Hrt.
+  pose proof (clamp_boundary s off Hb) as Hc.
+  destruct (boundary_norm s off Hb) as (k & Hk & ->).
+  destruct (find_line_correct s (blen (firstn k s))) as (H1 & H2 & H3 & H4). rewrite Hc in *.
+  destruct (counted_prefix_boundary s k Hk) as (kb & Hle & Hbeg & Hp). cbn zeta in *.
+  unfold in_document. rewrite fst_find_line_col, Hrt. repeat split; try assumption.
+  unfold find_line_col. destruct (line_col_prefix s (blen (firstn k s))) as [l pre] eqn:E. cbn [snd] in *.
+  subst pre. rewrite Hbeg, (skipb_boundary s kb ltac:(lia)).
+  unfold nlen. rewrite Nnat.Nat2N.id, firstn_length, !skipn_length. lia.
+Qed.
+
+(* a position past the end of the file is resolved like the end of the file, which is a boundary *)
+Theorem positions_past_end : forall s off, blen s <= off ->
+  find_line_col s off = find_line_col s (blen s) /\ boundary s (blen s).
+Proof.
+  intros s off H. split.
+  - unfold find_line_col, line_col_prefix, find_line.
+    assert (E : clamp_pos s off = clamp_pos s (blen s)).
+    { unfold clamp_pos. rewrite N.ltb_irrefl. destruct (blen s <? off) eqn:E; [reflexivity|apply N.ltb_ge in E; lia]. }
+    rewrite E. reflexivity.
+  - exists (length s). rewrite firstn_all. reflexivity.
+Qed.
+
+(* what find_line_col counts is exactly the text between the start of the line containing the offset
+   (find_line_correct) and the offset *)
+Theorem counted_prefix_is_line_segment : forall s off, boundary s off ->
+  exists kb k, (kb <= k <= length s)%nat /\ off = blen (firstn k s) /\
+    line_begin s (find_line s off) = blen (firstn kb s) /\
+    counted_prefix s off = firstn (k - kb) (skipn kb s).
+Proof.
+  intros s off Hb. destruct (boundary_norm s off Hb) as (k & Hk & ->).
+  destruct (counted_prefix_boundary s k Hk) as (kb & Hle & Hbeg & Hp).
+  exists kb, k. repeat split; try assumption; lia.
+Qed.
